@@ -1,2 +1,7 @@
 -- Root of the `Golem` library: property theorems (which pull in models, lemmas and generated definitions).
 import Golem.Props.C20
+import Golem.Props.C05
+import Golem.Props.C17
+import Golem.Props.C18
+import Golem.Props.C19
+import Golem.Lemmas.PoolInv
